@@ -24,12 +24,13 @@ type projJ struct {
 	DrawOp string `json:"drawOp"`
 	NPend  int    `json:"nPend"`
 	Lod    []F    `json:"lod"`
+	Init   int    `json:"init"` // 1 while the Encoder is still at its zero value (lazy default metadata not yet applied)
 }
 
 func projOf(e *encode.Encoder) projJ {
 	s := e.VerifState()
 	p := projJ{Mode: modeName(s.Mode), Err: s.Err, CSel: int(s.CSel), NSel: int(s.NSel), HiResL: s.HiResLatched,
-		NPend: s.NPending, Lod: fs(s.Lod0, s.Lod1)}
+		NPend: s.NPending, Lod: fs(s.Lod0, s.Lod1), Init: b2i(s.Mode == 0)}
 	if s.DrawOp != 0 {
 		p.DrawOp = string(rune(s.DrawOp))
 	}
